@@ -3,7 +3,7 @@ import Tv.Spec.C16Calendar
   The one fact about the proleptic Gregorian day-count algorithm that is not linear arithmetic:
   for every day `n` of the 400-year era (`0 ≤ n < 146097`) the year-of-era estimate
   `(n - n/1460 + n/36524 - n/146096) / 365` is at most 399 and its first day is at most `n` and
-  at least `n - 365`.  It is checked for all 146097 days by kernel evaluation (`decide +kernel`
+  at least `n - 365`, and the first day of the next year-of-era lies after `n` (except in year 399).  It is checked for all 146097 days by kernel evaluation (`decide +kernel`
   over `Nat` arithmetic, in chunks of 1000 to bound the recursion depth; about 50 s).
 -/
 namespace Tv.C16.Spec
@@ -12,7 +12,8 @@ def doeOk (n : Nat) : Bool :=
   let t := n - n / 1460 + n / 36524 - n / 146096
   let yoe := t / 365
   let s := 365 * yoe + yoe / 4 - yoe / 100
-  Nat.ble yoe 399 && Nat.ble s n && Nat.ble (n - s) 365
+  let s1 := 365 * (yoe + 1) + (yoe + 1) / 4 - (yoe + 1) / 100
+  Nat.ble yoe 399 && Nat.ble s n && Nat.ble (n - s) 365 && (Nat.ble (n + 1) s1 || Nat.beq yoe 399)
 
 def chunkOk (k : Nat) : Bool :=
   (List.range 1000).all fun i => Nat.ble 146097 (1000 * k + i) || doeOk (1000 * k + i)
